@@ -53,10 +53,15 @@ pub trait Prop: Sync + Send {
     }
     /// wall-clock cap of one run in seconds (first attempt; the single retry gets 4x)
     fn run_cap_secs(&self, tier: Tier) -> u64 {
-        if tier == Tier::Quick {
-            60
-        } else {
-            120
+        // Properties whose runs are always small get a short first-attempt cap: the expected cost of the
+        // index-loading stalls (DESIGN §11.2, tail ~ 1/sqrt(t)) grows with sqrt(cap), and the single retry
+        // gets 4x the cap anyway.
+        let small = !matches!(self.id(), "C01" | "C07" | "C08" | "C13" | "C15");
+        match (tier, small) {
+            (Tier::Quick, true) => 15,
+            (Tier::Quick, false) => 60,
+            (Tier::Thorough, true) => 30,
+            (Tier::Thorough, false) => 120,
         }
     }
     /// probes that must be non-zero in the thorough tier (generator reach self-test)
